@@ -16,7 +16,7 @@ MANIFEST = dict(
          "(returns f(args) / raises a registered typed error / raises a protocol error with a symbolic code / raises ValueError, TypeError or KeyError from its body; on the asynchronous dispatcher the methods are coroutines of which the n-th one invoked for a document suspends 3-n times before its body), id generator, strict flag, batch composition of 1..3 calls / notifications. "
          "Symbolic: argument values, sequential(start, step), the integers / characters returned by the randomness stub of randint / random, error code and data. "
          "Oracle: exactly one well-formed request document per send (ids present and pairwise distinct for calls, absent for notifications, params as given); the caller obtains the value of the direct Python invocation (JSON-normalised) "
-         "or an exception of the class registered for the code with equal code / message / data; notifications return None, raise nothing, run the method once; every notation is compared with the hand-built-request notation in the same path.",
+         "or an exception of the class registered for the code with equal code / message / data; notifications return None, raise nothing, run the method once; every notation is compared with the hand-built-request notation in the same path; histories of 2..3 calls through one client / dispatcher pair (a function with positional-only parameters and defaults called with fewer / more arguments) are judged call by call.",
     ref='5 C07',
     note="S11: module-level randomness of the id generators is replaced by a stub returning symbolic values within the documented range; colliding random ids (the client refuses to build the batch) are assumed away. "
          "Known finding: generators.uuid yields UUID objects the client cannot serialise (pinned by tests/client/test_generators.py::test_uuid).",
@@ -72,6 +72,15 @@ def obligations(tier):
                 if n <= 2:
                     obs.append({'h': 'batch', 'ck': ck, 'dk': dk, 'note': note, 'comp': list(comp), 'rot': 0, 'strict': False,
                                 '_weight': 3 ** n})
+    # histories of 2..3 calls through one client / dispatcher pair (positional-only parameters with defaults, fewer / more arguments)
+    for (ck, dk) in (('sync', 'sync'), ('async', 'async')):
+        for counts in it.product((1, 2, 3), repeat=2):
+            if counts[0] == counts[1]:
+                continue
+            for notes in (('call', 'call'), ('notify', 'call'), ('batch', 'call')):
+                obs.append({'h': 'history', 'ck': ck, 'dk': dk, 'calls': [['subpo', n] for n in counts], 'notes': list(notes)})
+        obs.append({'h': 'history', 'ck': ck, 'dk': dk, 'calls': [['subpo', 1], ['subpo', 3], ['subpo', 2]], 'notes': ['call', 'call', 'call']})
+        obs.append({'h': 'history', 'ck': ck, 'dk': dk, 'calls': [['sub', 1], ['sub', 2], ['sub', 1]], 'notes': ['call', 'call', 'call']})
     for (ck, dk), gen, shape in it.product((('sync', 'sync'), ('async', 'async')), ('sequential', 'randint', 'random', 'uuid'), ('call', 'batch2')):
         obs.append({'h': 'idgen', 'ck': ck, 'dk': dk, 'gen': gen, 'shape': shape})
     return obs
@@ -126,7 +135,11 @@ class _World:
             log.append(['boomk', a, b])
             raise KeyError('boom-marker')
 
-        self.fns = {'sub': sub, 'typed': typed, 'unreg': unreg, 'boom': boom, 'boomt': boomt, 'boomk': boomk}
+        def subpo(a, b=10, c=100, /):
+            log.append(['subpo', a, b, c])
+            return [a, b, c]
+
+        self.fns = {'sub': sub, 'typed': typed, 'unreg': unreg, 'boom': boom, 'boomt': boomt, 'boomk': boomk, 'subpo': subpo}
         d = (pjrpc.server.AsyncDispatcher if dk == 'async' else pjrpc.server.Dispatcher)(**wire.kwargs())
         self._n = 0
         for name, fn in self.fns.items():
@@ -499,5 +512,45 @@ def h_idgen(ob):
         if gen == 'random' and any(len(i) != 2 or any(ch not in 'ab' for ch in i) for i in ids):
             raise Violation('random-id-outside-alphabet', ids)
         return [len(ids)]
+
+    return run
+
+
+def h_history(ob):
+    """Several calls through ONE client / dispatcher pair, one after the other: every call is judged on its own (a registered
+    function with positional-only parameters and defaults, called with and without its optional arguments, in either order)."""
+    def run(env):
+        w = _World(env, ob['ck'], ob['dk'], strict=True)
+        outs = []
+        for i, (beh, nargs) in enumerate(ob['calls']):
+            args = tuple(env.int(f'h{i}_{j}') for j in range(nargs))
+            exp = _expected(w, beh, args, {})
+            n0 = len(w.log)
+            note = ob['notes'][i]
+            if note == 'call':
+                call = lambda c: c.call(beh, *args)  # noqa: E731
+            elif note == 'notify':
+                call = lambda c: c.notify(beh, *args)  # noqa: E731
+            else:
+                call = lambda c: c.batch[(beh, *args), ]  # noqa: E731   (a 1-tuple of calls)
+            st, val = _try(w, call)
+            env.reached()
+            if st.startswith('other'):
+                raise Violation('raised:' + st[6:], (i, ob['calls']))
+            if len(w.log) != n0 + (0 if exp[-1] == 'unbound' else 1):
+                raise Violation('server-executions', (i, w.log))
+            if note == 'notify':
+                if st != 'ok' or val is not None:
+                    raise Violation('notification-returned-or-raised', (i, st, val))
+            elif note == 'batch':
+                if exp[0] == 'value':
+                    if st != 'ok' or not same_json(list(val), [exp[1]]):
+                        raise Violation('result-differs-from-direct-call', (i, st, val, exp[1]))
+                elif st != 'raised':
+                    raise Violation('error-not-raised', (i, st))
+            else:
+                _check_outcome(exp, st, val, f'history[{i}]')
+            outs.append(st)
+        return outs
 
     return run
